@@ -135,6 +135,10 @@ func (e *Env) resolveType(te *TypeExpr) (types.Type, types.Type) {
 			return types.Typ[types.UnsafePointer], nil
 		case "unit":
 			return types.NewStruct(nil, nil), nil
+		case "rochanunit":
+			return types.NewChan(types.RecvOnly, types.NewStruct(nil, nil)), nil
+		case "chanunit":
+			return types.NewChan(types.SendRecv, types.NewStruct(nil, nil)), nil
 		case "mathint":
 			return types.Typ[types.UntypedInt], nil
 		}
@@ -993,7 +997,8 @@ func (e *Env) lockOf(x *ECall) TV {
 func chanComp(c *Ctx, base string, t types.Type) string {
 	if t != nil {
 		if ch, ok := t.Underlying().(*types.Chan); ok {
-			return base + "_" + sanitize(c.sortOf(ch.Elem()))
+			dir := map[types.ChanDir]string{types.SendRecv: "bi", types.RecvOnly: "ro", types.SendOnly: "so"}[ch.Dir()]
+			return base + "_" + dir + "_" + sanitize(c.sortOf(ch.Elem()))
 		}
 	}
 	return base
